@@ -14,7 +14,7 @@ import (
 )
 
 // C14 — accepted queries are clean; validation is stable and decisive.
-// Engine E2: all strings of <=3 (quick) / <=4 (thorough) atoms over a 40-atom
+// Engine E2: all strings of <=3 (quick) / <=4 (thorough) atoms over a 44-atom
 // alphabet, run-length families around the byte-length boundaries, all limits
 // in [-300,300] plus corners.
 
@@ -23,6 +23,8 @@ var c14Atoms = []string{
 	"\u0085", "\u00a0", "\u1680", "\u2003", "\u2028", "\u2029", "\u202f", "\u3000", "\u200b", "\ufeff",
 	"<", ">", "|", "&", ";", "$", "\xff", "\xc3", "\xed\xa0\x80", "-",
 	".", "\"", "'", "\\", "0", "ab", "  ", "\ufffd", "\v", "\f",
+	// fullwidth twins of three metacharacters and of a letter (compatibility forms that a normalisation could fold)
+	"\uff04", "\uff5c", "\uff1b", "\uff41",
 }
 
 const c14Meta = "<>|&;$"
@@ -225,6 +227,17 @@ func c14Run(c *lib.Ctx) {
 	if c.Shard == 0 {
 		eval("")
 		limits := []int{math.MinInt64, math.MinInt32, -1 << 31, 1<<31 - 1, 1 << 31, math.MaxInt64, math.MaxInt64 - 1}
+		// where 64-bit arithmetic on the limit would wrap: MaxInt/k and MinInt/k (k = 2..16) and every power of two, each +-2
+		for k := 2; k <= 16; k++ {
+			for d := -2; d <= 2; d++ {
+				limits = append(limits, math.MaxInt64/k+d, math.MinInt64/k+d)
+			}
+		}
+		for b := 8; b <= 62; b++ {
+			for d := -2; d <= 2; d++ {
+				limits = append(limits, 1<<b+d, -(1<<b)+d)
+			}
+		}
 		for l := -300; l <= 300; l++ {
 			limits = append(limits, l)
 		}
@@ -246,7 +259,7 @@ func c14Run(c *lib.Ctx) {
 func init() {
 	lib.Register(&lib.Check{
 		ID: "C14", Level: "model_checking",
-		Rule:      "every string of <=3 (quick) / <=4 (thorough) atoms over a 40-atom alphabet (ASCII, all Unicode spaces, controls, metacharacters, invalid UTF-8) plus run-length families atom^n·tail around 250/333/500/1000 bytes, each through ValidateQuery and re-validation; every limit in [-300,300] plus int corners through ValidateLimit; each enumerated string is distinct by construction; non-trivial = rejected, or accepted with an output different from the input",
+		Rule:      "every string of <=3 (quick) / <=4 (thorough) atoms over a 44-atom alphabet (ASCII, all Unicode spaces, controls, metacharacters and fullwidth twins of them, invalid UTF-8) plus run-length families atom^n·tail around 250/333/500/1000 bytes, each through ValidateQuery and re-validation; every limit in [-300,300] plus int corners (MaxInt/k, MinInt/k for k<=16 and all powers of two, each +-2) through ValidateLimit; non-trivial = rejected, or accepted with an output different from the input",
 		Assume:    []string{"Unicode classes per Go's unicode tables", "acceptance of strings whose only content is invalid UTF-8 bytes is left undecided (either answer accepted)"},
 		QuickSecs: 60, ThorSecs: 600,
 		Run: c14Run,
